@@ -527,3 +527,89 @@ Theorem cm_run60 :
           TrackerInc2b.entry m' j c = TrackerInc2b.cntc c s' j).
 Proof. exact TrackerInc2b.cm_run60. Qed.
 Print Assumptions cm_run60.
+
+(* ---- TrackerInc2c ---- *)
+From CiwV.Inv Require TrackerInc2c.
+
+Theorem event_step_fresh :
+  forall (cf : State2.config) (s s' : State2.sim),
+       Renege2.Idx s ->
+       Engine2.event_step cf s = State2.Ok (tt, s') -> TrackerInc2c.Fresh s'.
+Proof. exact TrackerInc2c.event_step_fresh. Qed.
+Print Assumptions event_step_fresh.
+
+Theorem candq1_of_ncciq :
+  forall s : State2.sim,
+       TrackerInc2c.Fresh s -> TrackerInc2c.NcciQ s -> TrackerInc2b.CandQ1 s.
+Proof. exact TrackerInc2c.candq1_of_ncciq. Qed.
+Print Assumptions candq1_of_ncciq.
+
+Theorem event_step_candq1 :
+  forall (cf : State2.config) (s s' : State2.sim),
+       Renege2.Idx s ->
+       Engine2.event_step cf s = State2.Ok (tt, s') ->
+       TrackerInc2c.NcciQ s' -> TrackerInc2b.CandQ1 s'.
+Proof. exact TrackerInc2c.event_step_candq1. Qed.
+Print Assumptions event_step_candq1.
+
+Theorem event_step_class_matrix2c_partial :
+  forall (cf : State2.config) (s s' : State2.sim),
+       TrackerInc2b.scope_nb cf = true ->
+       TrackerInc2b.InvB cf s ->
+       TrackerInc2b.CandQ1 s ->
+       Engine2.event_step cf s = State2.Ok (tt, s') ->
+       TrackerInc2b.InvB cf s' /\
+       TrackerInc2c.Fresh s' /\
+       (TrackerInc2c.NcciQ s' -> TrackerInc2b.CandQ1 s') /\
+       (forall c j : BinNums.Z,
+        BinInt.Z.sub (TrackerInc2b.cntc c s' j)
+          (TrackerInc2b.netc c j (TrackerInc2.calls_event_step cf s)) =
+        TrackerInc2b.cntc c s j).
+Proof. exact TrackerInc2c.event_step_class_matrix2c_partial. Qed.
+Print Assumptions event_step_class_matrix2c_partial.
+
+Theorem run_many_class_matrix2c_partial :
+  forall cf : State2.config,
+       TrackerInc2b.scope_nb cf = true ->
+       forall (ds : list State2.draws) (s s' : State2.sim),
+       TrackerInc2b.InvB cf s ->
+       TrackerInc2b.CandQ1 s ->
+       TrackerInc2c.NcciQ_run cf s ds ->
+       Codec2.run_many cf s ds = State2.Ok s' ->
+       TrackerInc2b.InvB cf s' /\
+       (forall c j : BinNums.Z,
+        BinInt.Z.sub (TrackerInc2b.cntc c s' j)
+          (TrackerInc2b.netc c j (TrackerInc2.calls_many cf s ds)) =
+        TrackerInc2b.cntc c s j) /\
+       (forall m0 m' : list (list BinNums.Z),
+        TrackerInc2.orun TrackerInc2.cm_step (TrackerInc2.calls_many cf s ds)
+          m0 = Some m' ->
+        forall j c : BinNums.Z,
+        TrackerInc2b.entry m0 j c = TrackerInc2b.cntc c s j ->
+        TrackerInc2b.entry m' j c = TrackerInc2b.cntc c s' j).
+Proof. exact TrackerInc2c.run_many_class_matrix2c_partial. Qed.
+Print Assumptions run_many_class_matrix2c_partial.
+
+Theorem find_next_class_change_spec :
+  forall (j : BinNums.Z) (s s' : State2.sim),
+       Engine2.find_next_class_change j s = State2.Ok (tt, s') ->
+       exists (nd : State2.node) (d c : option BinNums.Z),
+         Engine2.nthZ (State2.nodes s)
+           (BinInt.Z.sub j (BinNums.Zpos BinNums.xH)) = 
+         Some nd /\
+         s' =
+         RecordSet.set State2.nodes
+           (fun _ : list State2.node =>
+            Engine2.updZ (State2.nodes s)
+              (BinInt.Z.sub (State2.n_id nd) (BinNums.Zpos BinNums.xH))
+              (RecordSet.set State2.n_ncci (fun _ : option BinNums.Z => c)
+                 (RecordSet.set State2.n_nccd (fun _ : option BinNums.Z => d)
+                    nd))) s /\
+         (forall i : BinNums.Z,
+          c = Some i ->
+          List.In i (Engine2.all_individuals nd) /\
+          (exists (x : State2.ind) (z : BinNums.Z),
+             Engine2.find_ind i (State2.inds s) = Some x /\
+             State2.i_ccd x = State2.XV z /\ State2.i_server x = None)).
+Proof. exact TrackerInc2c.find_next_class_change_spec. Qed.
+Print Assumptions find_next_class_change_spec.
